@@ -47,8 +47,7 @@ def _writer(R, fam, ascii_mode):
 
 RECOMPUTE = [
     r'grid->rule1D\.updateOrder\([^;]*\)\s*;', r'grid->prepareSequence\(0\)\s*;', r'grid->buildInterpolationMatrix\(\)\s*;',
-    r'grid->wrapper\s*=\s*OneDimensionalWrapper\([^;]*\)\s*;', r'grid->recomputeTensorRefs\([^;]*\)\s*;', r'grid->max_power\s*=\s*MultiIndexManipulations::getMaxIndexes\([^;]*\)\s*;',
-    r'oned_max_level\s*=\s*grid->updated_tensors\.getMaxIndex\(\)\s*;', r'oned_max_level\s*=\s*\*std::max_element\([^;]*\)\s*;', r'int\s+oned_max_level\s*;',
+    r'grid->recomputeTensorRefs\([^;]*\)\s*;', r'grid->max_power\s*=\s*MultiIndexManipulations::getMaxIndexes\([^;]*\)\s*;',
 ]
 
 def _reader(R, fam, ascii_mode):
@@ -72,6 +71,12 @@ def _reader(R, fam, ascii_mode):
     b = R.sub("R12-return-grid", r'return\s+grid\s*;', 'return;', b)
     for rx in RECOMPUTE:
         b = R.sub("R12-drop-recompute", rx, '', b)
+    if fam in ("Global", "Fourier"):
+        # the 1-D rule cache: kept as the ghost number of levels it is built for
+        b = R.sub("R5g-max-index", r'grid->(\w+)\.getMaxIndex\(\)', r'grid->\1.maxidx', b)
+        b = R.sub("R5g-max-element", r'\*std::max_element\(\s*grid->(\w+)\.begin\(\)\s*,\s*grid->\1\.end\(\)\s*\)', r'grid->\1.maxv', b)
+        b = X.balanced_call_sub(R, "R12-wrapper-levels", b, r'grid->wrapper\s*=\s*OneDimensionalWrapper\s*(?=\()', lambda m_, a: "grid->wrapper_levels = (%s)" % X.split_top(a)[-4])
+        R.require({"R12-wrapper-levels": 1})
     b = R.sub("R3-template-param", r'std::is_same<\s*iomode\s*,\s*IO::mode_ascii_type\s*>::value', '1' if ascii_mode else '0', b)
     b = R.sub("R12-readNumber", r'IO::readNumber<\s*iomode\s*,\s*(\w+)\s*>\(\s*is\s*\)', r'((\1) tape_read_num())', b)
     b = R.sub("R12-readRule", r'IO::readRule<\s*iomode\s*>\(\s*is\s*\)', '((TypeOneDRule) tape_read_rule())', b)
@@ -177,8 +182,32 @@ def emit_version_check(R):
     b = X.r9_throws(R, b)
     b = R.sub("R10-member-call", r'(?<![\w.>])getVersion(Major|Minor)\(\)', r'g_version_\1', b)
     X.check_leftover(b, "readAscii version test")
-    R.require({"R9-throw-runtime_error": 2, "R10-member-call": 3})
+    R.require({"R9-throw-runtime_error": 2, "R10-member-call": 1})
     line = p.line + (p.header + p.body[:m.start()]).count('\n')
     out = '#line %d "%s"\nvoid version_check(int vmajor, int vminor){ %s }\n' % (line, X.REPO + "/" + p.rel, b)
     return out, {"functions": [{"name": "TasmanianSparseGrid::readAscii (version test)", "file": p.rel, "line": line, "loops": 0}], "rules_fired": {k: v for k, v in R.counts.items() if v},
                  "fidelity": X.fidelity(src, b, extra_vocab=["message", "to_string", "runtime_error", "getVersionMajor", "getVersionMinor", "+", "+="], slack=6)}
+
+
+def emit_update_invariant(R, fam):
+    """Grid<F>::updateGrid (F in Global, Fourier) over a ghost index set {empty, contains the current tensors}: establishes the clause of
+    well_formed_F that the round-trip harness assumes for a pending refinement (updated_tensors is empty or a superset of tensors)."""
+    rel = "SparseGrids/tsgGrid%s.cpp" % fam
+    text = X.strip_comments(X.read_source(rel))
+    (p,) = X.cut(rel, r'void\s+Grid%s::updateGrid\s*\(\s*int\s+depth\s*,\s*TypeDepth\s+type\s*,\s*const\s+std::vector<int>\s*&anisotropic_weights\s*,\s*const\s+std::vector<int>\s*&level_limits\s*\)' % fam, text)
+    b = p.body
+    b = X.balanced_call_sub(R, "R10-receiver-call", b, r'(?<![\w.>])makeGrid\s*(?=\()', lambda m, a: "fam_makeGrid(self)")
+    b = R.sub("R10-receiver-call", r'(?<![\w.>])(clearRefinement|proposeUpdatedTensors)\(\)', r'fam_\1(self)', b)
+    b = X.balanced_call_sub(R, "R5s-select", b, r'(?<![\w.>])selectTensors\s*(?=\()', lambda m, a: "gset_selected()")
+    b = R.sub("R5s-minus", r'\bupdated_tensors\s*-\s*tensors\b', 'gset_minus_tensors(self->updated_tensors)', b)
+    b = R.sub("R5s-plus", r'\bupdated_tensors\s*\+=\s*tensors\s*;', 'self->updated_tensors = gset_plus_tensors(self->updated_tensors);', b)
+    b = R.sub("R5s-local", r'\bMultiIndexSet\s+(\w+)\s*=', r'gset \1 =', b)
+    b = R.sub("R5s-none", r'\bMultiIndexSet\(\)', 'gset_none()', b)
+    b = R.sub("R5s-empty", r'(\)|\b\w+)\.empty\(\)', lambda m: ("self->points_empty" if m.group(1) == "points" else m.group(1) + ".empty"), b)
+    b = R.sub("R10-member", r'(?<![\w.>])(num_outputs|updated_tensors)\b(?!\()', r'self->\1', b)
+    b = b.replace("self->self->", "self->")
+    X.check_leftover(b, "Grid%s::updateGrid" % fam)
+    R.require({"R5s-select": 1, "R5s-minus": 1, "R5s-plus": 1, "R10-receiver-call": 3})
+    info = {"functions": [{"name": "Grid%s::updateGrid" % fam, "file": p.rel, "line": p.line, "loops": 0}], "rules_fired": {k: v for k, v in R.counts.items() if v},
+            "fidelity": X.fidelity(p.body, b, extra_vocab=["makeGrid", "clearRefinement", "proposeUpdatedTensors", "selectTensors", "updated_tensors", "tensors", "MultiIndexSet", "empty", "points", "num_outputs", "-", "+=", "="], slack=40)}
+    return '#line %d "%s"\nvoid updateGrid_%s(GU *self)%s\n' % (p.line, X.REPO + "/" + p.rel, fam, b), info
